@@ -6,6 +6,8 @@ import (
 	"fmt"
 	"github.com/KevoDB/kevo/pkg/replication"
 	"github.com/KevoDB/kevo/zsim/simnet"
+	"google.golang.org/grpc/codes"
+	"google.golang.org/grpc/status"
 	"net"
 	"sort"
 	"testing"
@@ -30,21 +32,22 @@ import (
 // API; rejected requests must leave everything - data and handles - as it was.
 
 type SvcOp struct {
-	K      string  `json:"k"` // get put del batch scan begin txget txput txdel txscan commit rollback nodeinfo sleep
-	Key    []byte  `json:"key,omitempty"`
-	KeyLen int     `json:"key_len,omitempty"` // >0: a synthetic key of this length (boundary sizes)
-	Tag    uint32  `json:"tag,omitempty"`
-	Len    int     `json:"len,omitempty"`
-	Sub    []SvcOp `json:"sub,omitempty"`
-	NBatch int     `json:"nbatch,omitempty"` // batch of this many synthetic puts
-	Start  []byte  `json:"start,omitempty"`
-	End    []byte  `json:"end,omitempty"`
-	Prefix []byte  `json:"prefix,omitempty"`
-	Suffix []byte  `json:"suffix,omitempty"`
-	Limit  int32   `json:"limit,omitempty"`
-	RO     bool    `json:"ro,omitempty"`
-	H      int     `json:"h,omitempty"` // handle slot: index into the list of handles ever created; -1 unknown id
-	D      int64   `json:"d,omitempty"`
+	FailSend int     `json:"fail_send,omitempty"` // scan/txscan: the client abandons the stream at its n-th result
+	K        string  `json:"k"`                   // get put del batch scan begin txget txput txdel txscan commit rollback nodeinfo sleep
+	Key      []byte  `json:"key,omitempty"`
+	KeyLen   int     `json:"key_len,omitempty"` // >0: a synthetic key of this length (boundary sizes)
+	Tag      uint32  `json:"tag,omitempty"`
+	Len      int     `json:"len,omitempty"`
+	Sub      []SvcOp `json:"sub,omitempty"`
+	NBatch   int     `json:"nbatch,omitempty"` // batch of this many synthetic puts
+	Start    []byte  `json:"start,omitempty"`
+	End      []byte  `json:"end,omitempty"`
+	Prefix   []byte  `json:"prefix,omitempty"`
+	Suffix   []byte  `json:"suffix,omitempty"`
+	Limit    int32   `json:"limit,omitempty"`
+	RO       bool    `json:"ro,omitempty"`
+	H        int     `json:"h,omitempty"` // handle slot: index into the list of handles ever created; -1 unknown id
+	D        int64   `json:"d,omitempty"`
 }
 
 type SvcCase struct {
@@ -55,11 +58,15 @@ type SvcCase struct {
 }
 
 type collectStream[T any] struct {
-	ctx  context.Context
-	msgs []*T
+	ctx    context.Context
+	msgs   []*T
+	failAt int // the n-th Send fails: the client has gone away (0: never)
 }
 
 func (s *collectStream[T]) Send(m *T) error {
+	if s.failAt > 0 && len(s.msgs)+1 >= s.failAt {
+		return status.Error(codes.Canceled, "context canceled")
+	}
 	// through the wire format
 	b, err := proto.Marshal(any(m).(proto.Message))
 	if err != nil {
@@ -219,6 +226,7 @@ func runC19(t *testing.T, c SvcCase) *kit.Result {
 			}
 		}
 		rejected := 0
+		abandonedScans := 0
 		for i, o := range c.Ops {
 			if res.V != nil {
 				break
@@ -322,7 +330,7 @@ func runC19(t *testing.T, c SvcCase) *kit.Result {
 				var err error
 				var h *svcHandle
 				if o.K == "scan" {
-					st := &collectStream[pb.ScanResponse]{ctx: ctx}
+					st := &collectStream[pb.ScanResponse]{ctx: ctx, failAt: o.FailSend}
 					err = svc.Scan(wire(&pb.ScanRequest{Prefix: o.Prefix, Suffix: o.Suffix, StartKey: o.Start, EndKey: o.End, Limit: o.Limit}), st)
 					for _, r := range st.msgs {
 						got = append(got, kit.KV{Key: r.Key, Val: r.Value})
@@ -330,7 +338,7 @@ func runC19(t *testing.T, c SvcCase) *kit.Result {
 				} else {
 					var id string
 					h, id = handleOf(o)
-					st := &collectStream[pb.TxScanResponse]{ctx: ctx}
+					st := &collectStream[pb.TxScanResponse]{ctx: ctx, failAt: o.FailSend}
 					err = svc.TxScan(wire(&pb.TxScanRequest{TransactionId: id, Prefix: o.Prefix, Suffix: o.Suffix, StartKey: o.Start, EndKey: o.End, Limit: o.Limit}), st)
 					for _, r := range st.msgs {
 						got = append(got, kit.KV{Key: r.Key, Val: r.Value})
@@ -343,11 +351,17 @@ func runC19(t *testing.T, c SvcCase) *kit.Result {
 						break
 					}
 				}
+				want := expectScan(view(h), o)
+				if o.FailSend > 0 && len(want) >= o.FailSend {
+					// the stream broke part-way: whatever the handler returns, nothing
+					// may be left behind (later requests show it)
+					abandonedScans++
+					break
+				}
 				if err != nil {
 					fail(&kit.Violation{Kind: "service-error", Signature: o.K + "-error", Detail: fmt.Sprintf("op %d %s: %v", i, o.K, err)})
 					break
 				}
-				want := expectScan(view(h), o)
 				for j := range got {
 					if got[j].Val == nil {
 						got[j].Val = []byte{}
@@ -472,6 +486,7 @@ func runC19(t *testing.T, c SvcCase) *kit.Result {
 			}
 		}
 		res.Probes["rejected_requests"] += int64(rejected)
+		res.Probes["scan_streams_abandoned_by_the_client"] += int64(abandonedScans)
 		res.Probes["handles"] += int64(len(handles))
 		res.Nontrivial = m.Len() >= 2 && len(c.Ops) >= 5
 		res.Note = fmt.Sprintf("%d requests, %d write steps, %d handles, %d rejected", len(c.Ops), m.Len(), len(handles), rejected)
@@ -513,6 +528,9 @@ func genSvcCase(r *kit.Rand, tier string) SvcCase {
 		return r.Intn(nHandles)
 	}
 	scanOpts := func(o *SvcOp) {
+		if r.Bool(0.08) {
+			o.FailSend = r.Range(1, 3)
+		}
 		switch r.Pick(3, 3, 2, 2, 1) {
 		case 1:
 			a, b := ks.Pick(r), ks.Pick(r)
